@@ -1,10 +1,7 @@
 from ._common import STD_TRUST
-<<<<<<< HEAD
 from .C06 import REGEN as _C06_REGEN
 from .C03 import REGEN as _C03_REGEN
-=======
 from ._links import with_links
->>>>>>> wt-d-link
 
 
 def _regen_wireconsts(ctx):
@@ -20,22 +17,17 @@ PROP = dict(
     level='proof',
     regen=['crctable', 'wireconsts', 'consts', 'integconsts', 'decapiconsts', 'decapistdfac'],
     theorems=['Fit.C01.C01_wire_records', 'Fit.C01.C01_wire_sequence', 'Fit.C01.C01_wire_chain',
-<<<<<<< HEAD
               'Fit.C01.C01_ts_nonmonotone_roundtrip', 'Fit.C01.C01_ts_wild_roundtrip', 'Fit.C01.C01_fix_conservative',
               # end to end (FitProps/C01E2E.lean): values, the real validator, the decoder-API model
               'Fit.C01.C01_e2e_actual', 'Fit.C01.C01_e2e_roundtrip_partial', 'Fit.C01.C01_e2e_reencode_partial', 'Fit.C01.C01_e2e_full_fails_arr',
               'Fit.C01.C01_e2e_full_fails_zero', 'Fit.C01.C01_e2e_full_fails_fffd', 'Fit.C01.C01_e2e_reencode_full_fails_boolarr',
               'Fit.C01.C01_e2e_value_independent_of_byte_order'],
     families=[dict(name='encw'), dict(name='decw'), dict(name='rtw', prop=True), dict(name='rte2e', prop=True)],
-=======
-              'Fit.C01.C01_ts_nonmonotone_roundtrip', 'Fit.C01.C01_ts_wild_roundtrip', 'Fit.C01.C01_fix_conservative'],
-    families=[dict(name='encw'), dict(name='decw'), dict(name='rtw', prop=True)],
     # link of the wire model (A) with the reader-client model (D): the full link is FALSE (Link_wire_full_false, notes/links.md D1);
     # proved wherever (D) does not report an invalid base type; the cross-check compares the two models on every decw line
     # (additive: checklib/props/_links.py)
     extra=with_links(None, ['Fit.Links.Link_wire_full_false', 'Fit.Links.Link_wire_eq_decprog_partial',
                             'Fit.Links.Link_C01_chain_decprog', 'Fit.Links.Link_C01_chain_api'], crosscheck=[('decw', 'linkwire')]),
->>>>>>> wt-d-link
     trusted_base=STD_TRUST + [
         "wire-level model FitModel/Wire.lean (encoder framing, LRU, compressed timestamps, header/CRC, chained files; decoder framing and timestamp tracking) is hand-written and tied by the families encw (real encoder, pass-through validator, 4 writer kinds, 10 buffer sizes), decw (real decoder on fixtures, encoder outputs and mutants, listener events) and rtw (real encode→decode with the round-trip predicate evaluated by the Lean driver)",
         "a field value is its marshalled byte string at this level; unmarshal∘marshal is C06, validation is C10",
